@@ -270,41 +270,38 @@ Proof.
   destruct ty, sn, ifc, mb, pa, de, ns, ar, ap; cbn; intros H; try discriminate H; reflexivity.
 Qed.
 
-Lemma roundtrip r : wf r -> k_empty_rule r = false -> k_comma_value r = false -> parse (show r) = Ok r.
+Lemma join_comp_not_nil l : l <> [] -> join [comma] (map compkv l) <> [].
 Proof.
-  intros Hw He Hc. unfold parse, show. rewrite comps_kvs.
-  assert (Hv : Forall (fun kv => no_sep comma (snd kv)) (kvs r)).
-  { apply kvs_values; [exact Hw| |now apply args_free]. intros x Hx. now apply name_char_plain. }
-  pose proof (kvs_good r Hw) as Hk.
-  rewrite split_join.
-  - rewrite fold_parse_kvs by exact Hk. now apply fold_kvs.
-  - intros E. apply map_eq_nil in E. apply kvs_nil in E. unfold k_empty_rule in He. now rewrite E in He.
-  - apply Forall_map. rewrite Forall_forall in *. intros kv Hin. apply comp_no_comma; auto.
+  destruct l as [|[k v] l]; [contradiction|]. intros _ H. destruct l; cbn in H; unfold compkv, comp in H; cbn in H;
+    apply app_eq_nil in H as [_ H]; discriminate H.
+Qed.
+
+Lemma kvs_nil_empty r : kvs r = [] -> r = empty_rule.
+Proof.
+  destruct r as [ty sn ifc mb pa de ar ap ns]. unfold kvs. cbn.
+  destruct ty, sn, ifc, mb, pa, de, ns, ar, ap; cbn; intros H; try discriminate H; reflexivity.
+Qed.
+
+Lemma parse_nonempty s : s <> [] -> parse s = fold_left parse_step (split_on comma s) (Ok empty_rule).
+Proof. destruct s; [contradiction|reflexivity]. Qed.
+
+Lemma roundtrip r : wf r -> k_comma_value r = false -> parse (show r) = Ok r.
+Proof.
+  intros Hw Hc. unfold show. rewrite comps_kvs.
+  destruct (kvs r) as [|kv l] eqn:Ekv.
+  - apply kvs_nil_empty in Ekv. subst. reflexivity.
+  - assert (Hne : kv :: l <> []) by discriminate. rewrite <- Ekv in *.
+    assert (Hv : Forall (fun kv => no_sep comma (snd kv)) (kvs r)).
+    { apply kvs_values; [exact Hw| |now apply args_free]. intros x Hx. now apply name_char_plain. }
+    pose proof (kvs_good r Hw) as Hk.
+    rewrite parse_nonempty by (now apply join_comp_not_nil).
+    rewrite split_join.
+    + rewrite fold_parse_kvs by exact Hk. now apply fold_kvs.
+    + intros E. apply map_eq_nil in E. contradiction.
+    + apply Forall_map. rewrite Forall_forall in *. intros kv0 Hin. apply comp_no_comma; auto.
 Qed.
 
 (* ------------------------------------------------------------------ what every successfully parsed rule satisfies *)
-Lemma pairs_nil_fields r : pairs_of r = [] ->
-  r_type r = None /\ r_sender r = None /\ r_interface r = None /\ r_member r = None /\ r_path r = None /\
-  r_destination r = None /\ r_args r = [] /\ r_arg_paths r = [] /\ r_arg0ns r = None.
-Proof.
-  destruct r as [ty sn ifc mb pa de ar ap ns]. unfold pairs_of. cbn.
-  destruct ty, sn, ifc, mb, pa, de, ns, ar, ap; cbn; intros H; try discriminate H; repeat split; reflexivity.
-Qed.
-
-Lemma ins_not_nil i v l : ins i v l <> [].
-Proof. destruct l as [|[j w] t]; cbn; [discriminate|]. destruct (i <? j)%N; [discriminate|]. destruct (i =? j)%N; discriminate. Qed.
-
-Lemma apply_op_nonempty r o r' : apply_op r o = Ok r' -> k_empty_rule r' = false.
-Proof.
-  intros H. unfold k_empty_rule. destruct (pairs_of r') eqn:E; [|reflexivity]. exfalso.
-  apply pairs_nil_fields in E. destruct E as (E1 & E2 & E3 & E4 & E5 & E6 & E7 & E8 & E9).
-  destruct o; cbn in H; unfold b_arg, b_arg_path, mk_bus in H;
-    repeat match type of H with
-           | context [if ?c then _ else _] => destruct c
-           end; cbn in H; inversion H; subst; cbn in *; try discriminate;
-    try (eapply ins_not_nil; eassumption).
-Qed.
-
 Definition op_cf (o : bop) : Prop :=
   match o with OArg _ s | OAddArg s => has_byte comma s = false | _ => True end.
 
@@ -376,27 +373,27 @@ Proof. induction comps; [reflexivity|assumption]. Qed.
 
 Lemma fold_parse_inv comps : Forall (no_sep comma) comps -> forall r0 r,
   wf r0 -> k_comma_value r0 = false -> fold_left parse_step comps (Ok r0) = Ok r ->
-  wf r /\ k_comma_value r = false /\ (k_empty_rule r0 = false \/ comps <> [] -> k_empty_rule r = false).
+  wf r /\ k_comma_value r = false.
 Proof.
   induction 1 as [|c comps Hc Hcs IH]; intros r0 r Hw Hcf H.
-  - cbn in H. inversion H; subst. split; [exact Hw|]. split; [exact Hcf|]. intros [E|E]; [exact E|contradiction].
+  - cbn in H. inversion H; subst. split; [exact Hw|exact Hcf].
   - cbn [fold_left] in H. destruct (parse_step (Ok r0) c) as [r1|e|p] eqn:E.
     + destruct (parse_step_ok _ _ _ Hc E) as (o & Ho & Hocf).
-      destruct (IH r1 r) as (H1 & H2 & H3); [eapply wf_apply_op; eassumption|eapply apply_op_cf; eassumption|exact H|].
-      split; [exact H1|]. split; [exact H2|]. intros _. apply H3. left. eapply apply_op_nonempty; eassumption.
+      apply (IH r1 r); [eapply wf_apply_op; eassumption|eapply apply_op_cf; eassumption|exact H].
     + rewrite fold_parse_err in H. discriminate.
     + rewrite fold_parse_panic in H. discriminate.
 Qed.
 
-Lemma parse_inv s r : parse s = Ok r -> wf r /\ k_comma_value r = false /\ k_empty_rule r = false.
+Lemma parse_inv s r : parse s = Ok r -> wf r /\ k_comma_value r = false.
 Proof.
-  unfold parse. intros H.
-  destruct (fold_parse_inv (split_on comma s) (split_on_no_sep comma s) empty_rule r wf_empty eq_refl H) as (H1 & H2 & H3).
-  split; [exact H1|]. split; [exact H2|]. apply H3. right. apply split_on_nonempty.
+  intros H. destruct s as [|c s'].
+  - cbn in H. inversion H; subst. split; [apply wf_empty|reflexivity].
+  - rewrite parse_nonempty in H by discriminate.
+    exact (fold_parse_inv _ (split_on_no_sep comma _) empty_rule r wf_empty eq_refl H).
 Qed.
 
 Lemma stable s r : parse s = Ok r -> parse (show r) = Ok r.
-Proof. intros H. destruct (parse_inv s r H) as (H1 & H2 & H3). now apply roundtrip. Qed.
+Proof. intros H. destruct (parse_inv s r H) as (H1 & H2). now apply roundtrip. Qed.
 
 (* ------------------------------------------------------------------ the specification's reader on Display's output *)
 Lemma key_char_tests c : key_char c = true ->
@@ -447,12 +444,6 @@ Proof.
     rewrite rd_comp by assumption. cbn [rd]. unfold sq, scomma, comma. cbn [beq]. 
     change (beq "," "'") with false. change (beq "," ",") with true. cbn iota.
     rewrite !rev_involutive. rewrite IH; [|discriminate|exact Hk2|exact Hv2]. cbn [rev]. now rewrite <- app_assoc.
-Qed.
-
-Lemma join_comp_not_nil l : l <> [] -> join [comma] (map compkv l) <> [].
-Proof.
-  destruct l as [|[k v] l]; [contradiction|]. intros _ H. destruct l; cbn in H; unfold compkv, comp in H; cbn in H;
-    apply app_eq_nil in H as [_ H]; discriminate H.
 Qed.
 
 Lemma spec_pairs_join l :
@@ -593,7 +584,8 @@ Qed.
 
 Lemma parse_no_panic s p : parse s <> Panic p.
 Proof.
-  unfold parse. generalize (split_on comma s). intros comps.
+  destruct s as [|c0 s0]; [discriminate|]. rewrite parse_nonempty by discriminate.
+  generalize (split_on comma (c0 :: s0)). intros comps.
   assert (H : forall acc, (forall p', acc <> Panic p') -> forall p', fold_left parse_step comps acc <> Panic p').
   { induction comps as [|c comps IH]; intros acc Ha p'; cbn; [apply Ha|]. apply IH. intros p''. now apply parse_step_no_panic. }
   apply H. discriminate.
@@ -603,8 +595,9 @@ Qed.
 Definition C22_full_statement : Prop :=
   forall ops r, build ops = Ok r -> parse (show r) = Ok r /\ spec_parse (show r) = Some (pairs_of r).
 
-Lemma empty_rule_refuted : build [] = Ok empty_rule /\ show empty_rule = [] /\ parse (show empty_rule) = Err EInvalidMatchRule
-  /\ spec_parse (show empty_rule) = Some (pairs_of empty_rule).
+(* repaired by fix 235b9dce: the rule without keys is printed as "" and read back *)
+Example empty_rule_fixed : build [] = Ok empty_rule /\ show empty_rule = [] /\ parse (show empty_rule) = Ok empty_rule
+  /\ spec_parse (show empty_rule) = Some (pairs_of empty_rule) /\ known_C22 empty_rule = false.
 Proof. repeat split. Qed.
 
 Lemma comma_value_refuted : exists r, build [OArg 0 (B "a,b")] = Ok r /\ show r = B "arg0='a,b'" /\
@@ -626,7 +619,9 @@ Lemma apostrophe_value_other_rule : exists r, build [OArg 0 (B "''")] = Ok r /\
 Proof. eexists. split; [reflexivity|]. split; reflexivity. Qed.
 
 Lemma full_refuted : ~ C22_full_statement.
-Proof. intros H. destruct (H [] empty_rule eq_refl) as [H1 _]. discriminate H1. Qed.
+Proof.
+  intros H. destruct comma_value_refuted as (r & Hb & _ & Hp & _). destruct (H _ r Hb) as [H1 _]. rewrite Hp in H1. discriminate H1.
+Qed.
 
 (* the specification's own two spellings of one rule (its example) are read alike *)
 Example spec_example :
@@ -646,14 +641,14 @@ Example ex_stable : exists r, parse (B "arg007='x',path='/a',arg+5path='/b',arg5
 Proof. eexists. split; [vm_compute; reflexivity|]. split; vm_compute; reflexivity. Qed.
 
 (* ------------------------------------------------------------------ statements about rules built through the API *)
-Lemma roundtrip_built ops r : build ops = Ok r -> k_empty_rule r = false -> k_comma_value r = false -> parse (show r) = Ok r.
+Lemma roundtrip_built ops r : build ops = Ok r -> k_comma_value r = false -> parse (show r) = Ok r.
 Proof. intros H. apply roundtrip. eapply wf_build; eassumption. Qed.
 Lemma spec_reads_built ops r : build ops = Ok r -> k_apostrophe_value r = false -> spec_parse (show r) = Some (pairs_of r).
 Proof. intros H. apply spec_reads. eapply wf_build; eassumption. Qed.
 Lemma partial_built ops r : build ops = Ok r -> known_C22 r = false ->
   parse (show r) = Ok r /\ spec_parse (show r) = Some (pairs_of r).
 Proof.
-  intros H Hk. unfold known_C22 in Hk. apply orb_false_iff in Hk as [Hk H3]. apply orb_false_iff in Hk as [H1 H2].
+  intros H Hk. unfold known_C22 in Hk. apply orb_false_iff in Hk as [H1 H2].
   split; [eapply roundtrip_built|eapply spec_reads_built]; eassumption.
 Qed.
 Lemma pairs_of_inj_built ops1 ops2 r1 r2 : build ops1 = Ok r1 -> build ops2 = Ok r2 -> pairs_of r1 = pairs_of r2 -> r1 = r2.
